@@ -46,6 +46,24 @@ def lex_cmp(ex, a, b):
                   mk_ite(mk_bin('Eq', a, b, ty, 'bool'), ordering(ex, 'Equal'), ordering(ex, 'Greater')))
 
 
+def gmap(ex, x, f):
+    """map_ite that records, while f runs on a leaf, the conditions selecting that leaf (so that panic sites inside a
+    closure applied to `Some(v)` carry `the option is Some` in their path condition)"""
+    if x[0] == 'ite':
+        ex.extra_guard.append(x[1])
+        try:
+            a = gmap(ex, x[2], f)
+        finally:
+            ex.extra_guard.pop()
+        ex.extra_guard.append(mk_not(x[1]))
+        try:
+            b = gmap(ex, x[3], f)
+        finally:
+            ex.extra_guard.pop()
+        return mk_ite(x[1], a, b)
+    return f(x)
+
+
 def as_table(ex, arr):
     """a constant integer array (of any length) as a registered table node, or None"""
     if arr[0] == 'tbl':
@@ -128,10 +146,15 @@ def m_iter(kind, *fields):
 def iter_items(ex, ctx, st, it):
     """Fully enumerate an iterator model with concrete position: -> (list of item values, state)."""
     if it[0] == 'ref':
-        it = ex.load(st, it)
+        tgt = ex.load(st, it)
+        if tgt[0] == 'agg' and tgt[1][0] == 'array':
+            return slice_elems(ex, st, it), st   # `for x in &array` / `.zip(&array)`
+        it = tgt
     if it[0] != 'agg':
         raise Uncertified("iteration over %s" % it[0])
     k = it[1]
+    if k[0] == 'array':
+        return list(it[2]), st                   # an array passed where IntoIterator is expected
     if k[0] == 'model':
         name = k[1]
         if name == 'SliceIter':
@@ -442,13 +465,13 @@ def apply(ex, ctx, st, f, args, dest_ty, term):
             if op in ('Add', 'Sub', 'Mul') and ty in INT_BITS:
                 if not (a[0] == 'c' and b[0] == 'c'):
                     flag = mk('bin', op + 'Ovf', a, b, 'bool')
-                    ex.obligations.append(Obligation(key, line, 'Overflow:' + op, mk_not(flag), st.gstack, [a, b], tuple(ex.fn_stack)))
+                    ex.obligations.append(Obligation(key, line, 'Overflow:' + op, mk_not(flag), ex.gs(st), [a, b], tuple(ex.fn_stack)))
             if op in ('Shl', 'Shr'):
                 bits = INT_BITS[ty]
                 okc = mk_bin('Lt', mk_cast(b, 'u32') if ty_of(b) != 'u32' else b, C(bits, 'u32'), 'u32', 'bool')
-                ex.obligations.append(Obligation(key, line, 'Overflow:' + op, okc, st.gstack, [a, b], tuple(ex.fn_stack)))
+                ex.obligations.append(Obligation(key, line, 'Overflow:' + op, okc, ex.gs(st), [a, b], tuple(ex.fn_stack)))
             if op in ('Div', 'Rem'):
-                ex.obligations.append(Obligation(key, line, 'DivisionByZero', mk_bin('Ne', b, C(0, ty), ty, 'bool'), st.gstack, [a, b], tuple(ex.fn_stack)))
+                ex.obligations.append(Obligation(key, line, 'DivisionByZero', mk_bin('Ne', b, C(0, ty), ty, 'bool'), ex.gs(st), [a, b], tuple(ex.fn_stack)))
             return mk_bin(op, a, b, ty, ty), st
         else:
             tgt, b = args
@@ -539,7 +562,7 @@ def apply(ex, ctx, st, f, args, dest_ty, term):
                     return OPTION_NONE
                 r, st = call_closure(ex, ctx, st, args[1], [l[2][0]])
                 return r
-            return map_ite(o, at), st
+            return gmap(ex, o, at), st
         if name == 'map_or':
             def mo(l):
                 nonlocal st
@@ -547,7 +570,7 @@ def apply(ex, ctx, st, f, args, dest_ty, term):
                     return args[1]
                 r, st = call_closure(ex, ctx, st, args[2], [l[2][0]])
                 return r
-            return map_ite(o, mo), st
+            return gmap(ex, o, mo), st
         if name == 'map_or_else':
             def moe(l):
                 nonlocal st
@@ -556,7 +579,7 @@ def apply(ex, ctx, st, f, args, dest_ty, term):
                     return r
                 r, st = call_closure(ex, ctx, st, args[2], [l[2][0]])
                 return r
-            return map_ite(o, moe), st
+            return gmap(ex, o, moe), st
         if name == 'unwrap_or_else':
             def uoe(l):
                 nonlocal st
@@ -564,7 +587,7 @@ def apply(ex, ctx, st, f, args, dest_ty, term):
                     return l[2][0]
                 r, st = call_closure(ex, ctx, st, args[1], [])
                 return r
-            return map_ite(o, uoe), st
+            return gmap(ex, o, uoe), st
         if name == 'or':
             return map_ite(o, lambda l: l if l[1][2] == 1 else args[1]), st
         if name == 'filter':
@@ -575,14 +598,14 @@ def apply(ex, ctx, st, f, args, dest_ty, term):
                 rx = ex.new_tmp(st, l[2][0])
                 r, st = call_closure(ex, ctx, st, args[1], [rx])
                 return mk_ite(r, l, OPTION_NONE)
-            return map_ite(o, fl), st
+            return gmap(ex, o, fl), st
         if name == 'is_some':
             return map_ite(o, lambda l: C(1 if l[1][2] == 1 else 0, 'bool')), st
         if name == 'is_none':
             return map_ite(o, lambda l: C(1 if l[1][2] == 0 else 0, 'bool')), st
         if name in ('unwrap', 'expect'):
             some = map_ite(o, lambda l: C(1 if l[1][2] == 1 else 0, 'bool'))
-            ex.obligations.append(Obligation(key, line, 'Option::' + name, some, st.gstack, None, tuple(ex.fn_stack)))
+            ex.obligations.append(Obligation(key, line, 'Option::' + name, some, ex.gs(st), None, tuple(ex.fn_stack)))
             return map_ite(o, lambda l: l[2][0] if l[1][2] == 1 else UNDEF), st
         if name == 'unwrap_or':
             return map_ite(o, lambda l: l[2][0] if l[1][2] == 1 else args[1]), st
@@ -600,7 +623,7 @@ def apply(ex, ctx, st, f, args, dest_ty, term):
                 nonlocal st
                 r, st = call_closure(ex, ctx, st, args[1], [l[2][0]])
                 return option_some(r)
-            return map_ite(o, mp), st
+            return gmap(ex, o, mp), st
         if name == 'ok_or':
             R = 'core::result::Result'
             return map_ite(o, lambda l: agg(('adt', R, pdb.variant_index(R, 'Ok')), (l[2][0],)) if l[1][2] == 1
@@ -648,7 +671,7 @@ def apply(ex, ctx, st, f, args, dest_ty, term):
             return map_ite(o, lambda l: l[2][0] if l[1][2] == okix else d), st
         if name in ('unwrap', 'expect'):
             isok = map_ite(o, lambda l: C(1 if l[1][2] == okix else 0, 'bool'))
-            ex.obligations.append(Obligation(key, line, 'Result::' + name, isok, st.gstack, None, tuple(ex.fn_stack)))
+            ex.obligations.append(Obligation(key, line, 'Result::' + name, isok, ex.gs(st), None, tuple(ex.fn_stack)))
             return map_ite(o, lambda l: l[2][0] if l[1][2] == okix else UNDEF), st
         raise Uncertified("Result::%s" % name)
     if path.startswith('core::option::Option::<T>::') and name in ('and_then', 'unwrap_or_else', 'map_or', 'filter', 'or'):
@@ -660,7 +683,7 @@ def apply(ex, ctx, st, f, args, dest_ty, term):
                     return OPTION_NONE
                 r, st = call_closure(ex, ctx, st, args[1], [l[2][0]])
                 return r
-            return map_ite(o, at), st
+            return gmap(ex, o, at), st
         if name == 'map_or':
             def mo(l):
                 nonlocal st
@@ -668,7 +691,7 @@ def apply(ex, ctx, st, f, args, dest_ty, term):
                     return args[1]
                 r, st = call_closure(ex, ctx, st, args[2], [l[2][0]])
                 return r
-            return map_ite(o, mo), st
+            return gmap(ex, o, mo), st
         raise Uncertified("Option::%s" % name)
 
     # ---- slices / arrays -------------------------------------------------------------------
@@ -750,7 +773,7 @@ def apply(ex, ctx, st, f, args, dest_ty, term):
         a, b = args
         ty = ty_of(a)
         from .pdb import is_signed as _sg
-        ex.obligations.append(Obligation(key, line, 'DivisionByZero', mk_bin('Ne', b, C(0, ty), ty, 'bool'), st.gstack, [a, b], tuple(ex.fn_stack)))
+        ex.obligations.append(Obligation(key, line, 'DivisionByZero', mk_bin('Ne', b, C(0, ty), ty, 'bool'), ex.gs(st), [a, b], tuple(ex.fn_stack)))
         if not _sg(ty):
             return mk_bin('Div' if name == 'div_euclid' else 'Rem', a, b, ty, ty), st
         return mk_call(name, (a, b), ty), st
@@ -761,7 +784,7 @@ def apply(ex, ctx, st, f, args, dest_ty, term):
             raise Uncertified("swap on %s" % arr[0])
         n_ = len(arr[2])
         ok_ = mk_and(mk_bin('Lt', i, C(n_, 'usize'), 'usize', 'bool'), mk_bin('Lt', j, C(n_, 'usize'), 'usize', 'bool'))
-        ex.obligations.append(Obligation(key, line, 'slice::swap bounds', ok_, st.gstack, [i, j], tuple(ex.fn_stack)))
+        ex.obligations.append(Obligation(key, line, 'slice::swap bounds', ok_, ex.gs(st), [i, j], tuple(ex.fn_stack)))
         vi = ex.project(arr, i)
         vj = ex.project(arr, j)
         new_ = []
@@ -776,7 +799,7 @@ def apply(ex, ctx, st, f, args, dest_ty, term):
         if arr[0] != 'agg' or i[0] != 'c' or j[0] != 'c':
             raise Uncertified("swap with symbolic indices")
         n = len(arr[2])
-        ex.obligations.append(Obligation(key, line, 'slice::swap bounds', C(1 if i[1] < n and j[1] < n else 0, 'bool'), st.gstack, None, tuple(ex.fn_stack)))
+        ex.obligations.append(Obligation(key, line, 'slice::swap bounds', C(1 if i[1] < n and j[1] < n else 0, 'bool'), ex.gs(st), None, tuple(ex.fn_stack)))
         l = list(arr[2])
         if i[1] < n and j[1] < n:
             l[i[1]], l[j[1]] = l[j[1]], l[i[1]]
@@ -810,7 +833,7 @@ def apply(ex, ctx, st, f, args, dest_ty, term):
         if arr0[0] != 'agg' or k_[0] != 'c' or base[0] != 'ref':
             raise Uncertified("split_at with symbolic position")
         n_ = len(arr0[2])
-        ex.obligations.append(Obligation(key, line, 'split_at position in range', C(1 if k_[1] <= n_ else 0, 'bool'), st.gstack, None, tuple(ex.fn_stack)))
+        ex.obligations.append(Obligation(key, line, 'split_at position in range', C(1 if k_[1] <= n_ else 0, 'bool'), ex.gs(st), None, tuple(ex.fn_stack)))
         off = base[2][0] if base[2] is not None else 0
         return agg(('tuple',), (mk('ref', base[1], (off, k_[1])), mk('ref', base[1], (off + k_[1], max(0, n_ - k_[1])))) ), st
     if path in ('core::slice::<impl [T]>::copy_from_slice', 'core::slice::<impl [T]>::clone_from_slice'):
@@ -819,7 +842,7 @@ def apply(ex, ctx, st, f, args, dest_ty, term):
         b_ = ex.load(st, src)
         if a_[0] != 'agg' or b_[0] != 'agg':
             raise Uncertified("copy_from_slice over %s/%s" % (a_[0], b_[0]))
-        ex.obligations.append(Obligation(key, line, 'copy_from_slice lengths equal', C(1 if len(a_[2]) == len(b_[2]) else 0, 'bool'), st.gstack, None, tuple(ex.fn_stack)))
+        ex.obligations.append(Obligation(key, line, 'copy_from_slice lengths equal', C(1 if len(a_[2]) == len(b_[2]) else 0, 'bool'), ex.gs(st), None, tuple(ex.fn_stack)))
         if len(a_[2]) == len(b_[2]):
             ex.store(st, dst, mk('agg', a_[1], b_[2]))
         return UNIT, st
@@ -841,7 +864,7 @@ def apply(ex, ctx, st, f, args, dest_ty, term):
         if arr[0] != 'agg' or kk[0] != 'c':
             raise Uncertified("rotate with symbolic amount")
         n_ = len(arr[2])
-        ex.obligations.append(Obligation(key, line, 'rotate amount in range', C(1 if kk[1] <= n_ else 0, 'bool'), st.gstack, None, tuple(ex.fn_stack)))
+        ex.obligations.append(Obligation(key, line, 'rotate amount in range', C(1 if kk[1] <= n_ else 0, 'bool'), ex.gs(st), None, tuple(ex.fn_stack)))
         r_ = kk[1] % n_ if n_ else 0
         if name == 'rotate_right':
             r_ = (n_ - r_) % n_ if n_ else 0
@@ -881,7 +904,7 @@ def apply(ex, ctx, st, f, args, dest_ty, term):
         arr = ex.load(st, base)
         if ty_of(arr) == 'str':
             okc = mk_call('is_char_boundary_range', (arr, ix if ix[0] != 'agg' else agg(('tuple',), ix[2])), 'bool')
-            ex.obligations.append(Obligation(key, line, 'str slice on a char boundary', okc, st.gstack, [arr], tuple(ex.fn_stack)))
+            ex.obligations.append(Obligation(key, line, 'str slice on a char boundary', okc, ex.gs(st), [arr], tuple(ex.fn_stack)))
             return mk_call('str_slice', (arr, ix if ix[0] != 'agg' else agg(('tuple',), ix[2])), 'str'), st
         if arr[0] not in ('agg',):
             raise Uncertified("Index on %s" % arr[0])
@@ -902,7 +925,7 @@ def apply(ex, ctx, st, f, args, dest_ty, term):
             else:
                 raise Uncertified("Index with %s" % rk)
             okc = mk_and(mk_bin('Le', lo, hi, 'usize', 'bool'), mk_bin('Le', hi, C(n, 'usize'), 'usize', 'bool'))
-            ex.obligations.append(Obligation(key, line, 'slice index range', okc, st.gstack, [lo, hi, C(n, "usize")], tuple(ex.fn_stack)))
+            ex.obligations.append(Obligation(key, line, 'slice index range', okc, ex.gs(st), [lo, hi, C(n, "usize")], tuple(ex.fn_stack)))
             if lo[0] != 'c' or hi[0] != 'c':
                 raise Uncertified("slice range with symbolic bounds")
             if base[2] is not None:
@@ -912,7 +935,7 @@ def apply(ex, ctx, st, f, args, dest_ty, term):
             return mk('ref', base[1], w), st
         if ty_of(ix) == 'usize':
             okc = mk_bin('Lt', ix, C(n, 'usize'), 'usize', 'bool')
-            ex.obligations.append(Obligation(key, line, 'BoundsCheck', okc, st.gstack, [C(n, "usize"), ix], tuple(ex.fn_stack)))
+            ex.obligations.append(Obligation(key, line, 'BoundsCheck', okc, ex.gs(st), [C(n, "usize"), ix], tuple(ex.fn_stack)))
             if base[1][0] == 'val':
                 return mk('ref', ('val', ex.project(arr, ix)), None), st
             off = base[2][0] if base[2] is not None else 0
@@ -1022,7 +1045,7 @@ def apply(ex, ctx, st, f, args, dest_ty, term):
             r, st = call_closure(ex, ctx, st, args[2], [l[2][0], x])
             return r
         for x in items:
-            res = map_ite(res, lambda l, x=x: stepf(l, x))
+            res = gmap(ex, res, lambda l, x=x: stepf(l, x))
         return res, st
     if dpath == 'core::iter::Iterator::find':
         items, st = iter_items(ex, ctx, st, args[0])
@@ -1065,7 +1088,7 @@ def apply(ex, ctx, st, f, args, dest_ty, term):
             op = 'Add' if name == 'sum' else 'Mul'
             flag = mk('bin', op + 'Ovf', acc, x, 'bool') if not (acc[0] == 'c' and x[0] == 'c') else None
             if flag is not None:
-                ex.obligations.append(Obligation(key, line, 'Overflow:' + op, mk_not(flag), st.gstack, [acc, x], tuple(ex.fn_stack)))
+                ex.obligations.append(Obligation(key, line, 'Overflow:' + op, mk_not(flag), ex.gs(st), [acc, x], tuple(ex.fn_stack)))
             acc = mk_bin(op, acc, x, ty, ty)
         return acc, st
     if dpath == 'core::iter::Iterator::count':
